@@ -21,8 +21,9 @@ inductive Cond (α : Type) where
 
 variable {α : Type}
 
-/-- `_EpanetRule.add_control_condition(cond, prefix)` (and, token for token, `str(cond)` used by
-`Rule.to_dict`): the in-order list of clauses; the first atom of the right operand carries AND / OR -/
+/-- the IN-ORDER list of clauses: `str(cond)` used by `Rule.to_dict` (the dictionary path, C13) token for token, and
+`_EpanetRule.add_control_condition` as it was BEFORE e0050eda; the first atom of the right operand carries AND / OR.
+The repaired INP writer is `flattenCnf` below. -/
 def flatten : Cond α → Conj → List (Conj × α)
   | .atom a, p => [(p, a)]
   | .and l r, p => flatten l p ++ flatten r .and_
@@ -57,6 +58,35 @@ def isShape : Cond α → Bool
 def conjs : Cond α → List (Cond α)
   | .and l r => conjs l ++ [r]
   | c => [c]
+
+/-! ### the repaired INP writer (e0050eda): a condition is written as the AND of OR-groups the syntax means -/
+
+/-- a rule condition as the AND of OR-groups the [RULES] syntax can say (EPANET and WNTR's reader take `a AND b OR c` as
+`a AND (b OR c)`); groups and atoms in writing order — `_EpanetRule._and_of_or_groups` -/
+def cnf : Cond α → List (List α)
+  | .atom a => [[a]]
+  | .and l r => cnf l ++ cnf r
+  | .or l r => (cnf l).flatMap fun g1 => (cnf r).map fun g2 => g1 ++ g2
+
+/-- `add_control_condition` on the groups: the first atom of a group carries IF (first group) / AND, the others OR -/
+def groupClauses (p : Conj) : List α → List (Conj × α)
+  | [] => []
+  | a :: t => (p, a) :: t.map fun x => (Conj.or_, x)
+
+def clausesOfGroups : List (List α) → List (Conj × α)
+  | [] => []
+  | g :: gs => groupClauses .if_ g ++ gs.flatMap (groupClauses .and_)
+
+/-- the clauses the repaired writer produces for ANY condition tree -/
+def flattenCnf (c : Cond α) : List (Conj × α) := clausesOfGroups (cnf c)
+
+def orTree (a : α) (rest : List α) : Cond α := rest.foldl (fun t x => .or t (.atom x)) (.atom a)
+
+def groupTree [Inhabited α] (g : List α) : Cond α := orTree (g.headD default) g.tail
+
+/-- the canonical tree of a list of groups: left-nested AND of left-nested ORs (what `generate_control` builds) -/
+def ofGroups [Inhabited α] (gs : List (List α)) : Cond α :=
+  (gs.tail.map groupTree).foldl .and (groupTree (gs.headD []))
 
 /-! ### keyword splitting of `_EpanetRule.parse_rules_lines` -/
 
@@ -364,9 +394,15 @@ def actLines {α β : Type} (first : Kw) : List β → List (Kw × Payload α β
   | b :: bs => (first, .act b) :: bs.map fun x => (Kw.and_, .act x)
 
 /-- `from_if_then_else` + `__str__`: IF/AND/OR clauses, THEN a AND b …, ELSE a AND b …, PRIORITY p when p ≥ 0 -/
-def printRule {α β : Type} (r : Rule α β) : List (Kw × Payload α β) :=
-  (flatten r.cond .if_).map (fun cl => (cl.1.kw, Payload.atom cl.2)) ++ actLines .then_ r.thens ++ actLines .else_ r.elses ++
+def printRuleWith {α β : Type} (cls : List (Conj × α)) (r : Rule α β) : List (Kw × Payload α β) :=
+  cls.map (fun cl => (cl.1.kw, Payload.atom cl.2)) ++ actLines .then_ r.thens ++ actLines .else_ r.elses ++
     (if r.priority ≥ 0 then [(Kw.priority, Payload.prio r.priority)] else [])
+
+/-- the repaired writer (e0050eda): premises as the AND of OR-groups -/
+def printRule {α β : Type} (r : Rule α β) : List (Kw × Payload α β) := printRuleWith (flattenCnf r.cond) r
+
+/-- the writer before e0050eda: premises in tree order -/
+def printRuleInOrder {α β : Type} (r : Rule α β) : List (Kw × Payload α β) := printRuleWith (flatten r.cond .if_) r
 
 inductive Mode where
   | none | inIf | inThen | inElse
@@ -408,21 +444,6 @@ end Wntr.InpText
 (`harness/props/c12.py: normalise`): what an INP file cannot distinguish -/
 namespace Wntr.InpNorm
 open Wntr.InpText
-
-/-- a rule condition as the AND of OR-groups the [RULES] syntax can say (EPANET and WNTR read `a AND b OR c` as
-`a AND (b OR c)`); groups and atoms in writing order -/
-def cnf {α : Type} : Cond α → List (List α)
-  | .atom a => [[a]]
-  | .and l r => cnf l ++ cnf r
-  | .or l r => (cnf l).flatMap fun g1 => (cnf r).map fun g2 => g1 ++ g2
-
-def orTree {α : Type} (a : α) (rest : List α) : Cond α := rest.foldl (fun t x => .or t (.atom x)) (.atom a)
-
-def groupTree {α : Type} [Inhabited α] (g : List α) : Cond α := orTree (g.headD default) g.tail
-
-/-- the canonical tree of a list of groups: left-nested AND of left-nested ORs -/
-def ofGroups {α : Type} [Inhabited α] (gs : List (List α)) : Cond α :=
-  (gs.tail.map groupTree).foldl .and (groupTree (gs.headD []))
 
 structure Demand where
   base : Int
